@@ -138,6 +138,14 @@ EXT_FILE = {'fromcsv': 'csv', 'fromcsv-header': 'csv', 'fromtsv': 'tsv', 'fromte
 VIS = {
     'look': lambda v: repr(petl.look(v)),
     'look-limit2': lambda v: repr(petl.look(v, limit=2)),
+    'look-simple': lambda v: repr(petl.look(v, style='simple')),
+    'look-minimal': lambda v: repr(petl.look(v, style='minimal')),
+    'look-minimal-limit2': lambda v: repr(petl.look(v, limit=2, style='minimal', index_header=True)),
+    'lookstr-simple': lambda v: str(petl.lookstr(v, style='simple')),
+    'look-config-minimal': lambda v: _with_config('look_style', 'minimal', lambda: repr(petl.look(v))),
+    'look-config-limit': lambda v: _with_config('look_limit', 2, lambda: repr(petl.look(v))),
+    'see-limit2': lambda v: repr(petl.see(v, limit=2)),
+    'display-html': lambda v: petl.util.vis._display_html(v),
     'lookstr': lambda v: str(petl.lookstr(v)),
     'see': lambda v: repr(petl.see(v)),
     'repr(wrap)': lambda v: repr(petl.wrap(v)),
@@ -148,7 +156,9 @@ VIS = {
     'wrap[2]': lambda v: petl.wrap(v)[2],
     'look(cut(convert))': lambda v: repr(petl.look(petl.cut(petl.convert(v, 'f0', str), 'f0', 'f1'))),
 }
-VIS_LIMIT = {'look': 5, 'look-limit2': 2, 'lookstr': 5, 'see': 5, 'repr(wrap)': 5, 'str(wrap)': 5, '_repr_html_': 5, 'head(3)': 3, 'islice(5)': 5,
+VIS_LIMIT = {'look-simple': 5, 'look-minimal': 5, 'look-minimal-limit2': 2, 'lookstr-simple': 5, 'look-config-minimal': 5, 'look-config-limit': 2,
+             'see-limit2': 2, 'display-html': 5,
+             'look': 5, 'look-limit2': 2, 'lookstr': 5, 'see': 5, 'repr(wrap)': 5, 'str(wrap)': 5, '_repr_html_': 5, 'head(3)': 3, 'islice(5)': 5,
              'wrap[2]': 2, 'look(cut(convert))': 5}
 
 
@@ -164,6 +174,16 @@ SCHEMA_SAFE = ['cat', 'stack', 'rowslice', 'rowslice-step', 'skipcomments', 'sel
 # (fromcolumns(columns(...))), or the function is documented to scan the values (facet returns a dict keyed by them)
 # stringpatterns / rowlengths (util/counting.py, outside the anchors) are eager profiling helpers returning a materialised summary
 NOT_CONSTRUCTORS = {'fromcolumns(columns)', 'facet', 'stringpatterns', 'rowlengths'}
+
+
+def _with_config(name, value, fn):
+    from petl import config as pcfg
+    old = getattr(pcfg, name)
+    setattr(pcfg, name, value)
+    try:
+        return fn()
+    finally:
+        setattr(pcfg, name, old)
 
 
 def _streaming_unary():
